@@ -102,7 +102,18 @@ class Engine:
         r = str(r)
         if r == 'unknown':
             self.nq_unknown += 1
+        if _DEBUG and time.time() - t > 2:
+            print('    [slow query %.1fs -> %s: %d assumes, %d axioms(%s), %d pc, extra %s]' % (
+                time.time() - t, r, len(self.assumes), len(self.axioms), with_axioms, len(self.pc), [_short(e, 200) for e in extra][:2]), flush=True)
         return r, s
+
+    def require_feasible(self, timeout_ms=None):
+        """called by a harness at the end of a path whose branch feasibility may have been over-approximated: if assumptions,
+        axioms and path condition together have no model the path does not exist (Infeasible: nothing is stated on it)"""
+        r, _ = self.check(timeout_ms=timeout_ms)
+        if r == 'unsat':
+            raise Infeasible('path condition has no model')
+        return r
 
     def assume(self, cond):
         self.assumes.append(tob(cond))
@@ -163,6 +174,8 @@ class Engine:
         r = str(s.check())
         self.tq += time.time() - t
         self.nq += 1
+        if _DEBUG and time.time() - t > 2:
+            print('    [slow relaxed query %.1fs -> %s: %s]' % (time.time() - t, r, _short(zc, 300)), flush=True)
         return r
 
     def _feasible(self, zc, bt):
@@ -170,6 +183,33 @@ class Engine:
         query without them: unsat there is definitive; sat there is taken as feasible (over-approximation:
         an infeasible path can only add vacuous obligations, and any counterexample is replayed anyway)."""
         if not self.axioms:
+            if not _is_linear(zc) and any(_has_int(c) for c in self.assumes):
+                # nonlinear condition next to integer (rounding) constraints: mixed NIRA queries run into the timeout, so the
+                # relaxation without the integer-carrying conjuncts is asked FIRST (unsat definitive, sat over-approximation)
+                s2 = z3.Solver()
+                s2.set('timeout', int(bt))
+                for c in list(self.assumes) + list(self.pc):
+                    if not _has_int(c):
+                        s2.add(c)
+                s2.add(zc)
+                t = time.time()
+                r2 = str(s2.check())
+                self.tq += time.time() - t
+                self.nq += 1
+                if r2 == 'unsat':
+                    return r2
+                if r2 == 'sat':
+                    self.notes.append('branch feasibility decided without the integer constraints (over-approximation)')
+                    return r2
+            elif any(_has_int(c) for c in self.assumes) and not all(_is_linear(c) for c in self.pc):
+                # linear condition on a path that mixes integer (rounding) constraints with nonlinear conjuncts: decide it
+                # against the linear part first (LIRA; unsat definitive, sat over-approximation)
+                r2 = self._feasible_relaxed(zc, bt)
+                if r2 == 'unsat':
+                    return r2
+                if r2 == 'sat':
+                    self.notes.append('branch feasibility decided against the linear part of the path (over-approximation)')
+                    return r2
             r = self.check(zc, timeout_ms=bt)[0]
             if r == 'unknown' and not _is_linear(zc):
                 # nonlinear condition on a path that also carries integer (rounding) constraints: decide it against the
@@ -182,6 +222,8 @@ class Engine:
                 s2.add(zc)
                 t = time.time()
                 r2 = str(s2.check())
+                if _DEBUG and time.time() - t > 2:
+                    print('    [slow no-int query %.1fs -> %s: %s]' % (time.time() - t, r2, _short(zc, 300)), flush=True)
                 self.tq += time.time() - t
                 self.nq += 1
                 if r2 == 'sat':
